@@ -25,7 +25,7 @@ def item(name, ty, pinned, doc):
 INT_BITS = {"u8": 8, "u16": 16, "u32": 32, "u64": 64, "u128": 128, "usize": 64}
 
 def struct_field_type(text, struct, field):
-    m = re.search(r"pub struct %s(?:<[^>]*>)?\s*\{(.*?)\n\}" % re.escape(struct), text, re.S)
+    m = re.search(r"(?:pub )?struct %s(?:<[^>]*>)?\s*\{(.*?)\n\}" % re.escape(struct), text, re.S)
     if not m:
         return None
     f = re.search(r"\b%s\s*:\s*([A-Za-z0-9_]+)" % re.escape(field), m.group(1))
@@ -48,6 +48,19 @@ def _():
     a = struct_field_type(t, "MspIntervalP", "len")
     if a in INT_BITS and len(re.findall(r"len:\s*\([^;]*?\) as %s" % a, t)) == 2:
         return str(INT_BITS[a])
+    return None
+
+@item("mspScoreBits", "Nat", "64", "width of the cached score MinPos.val (usize) and of the closure's return type")
+def _():
+    t = src("msp.rs")
+    a = struct_field_type(t, "MinPos", "val")
+    # the score must be stored without a narrowing cast
+    if a in INT_BITS and len(re.findall(r"let val = \(self\.score\)\(&kmer\);", t)) == 2 and re.search(r"F: Fn\(&P\) -> usize", t):
+        return str(INT_BITS[a])
+    if a in INT_BITS:
+        casts = re.findall(r"let val = \(self\.score\)\(&kmer\) as (\w+);", t)
+        if casts and all(c in INT_BITS for c in casts):
+            return str(min([INT_BITS[a]] + [INT_BITS[c] for c in casts]))
     return None
 
 @item("mspMaxLenLog", "Nat", "32", "`assert!(self.seq.len() < 1 << 32)` in Scanner::scan")
@@ -232,6 +245,33 @@ def _():
     t = src("lib.rs")
     m = re.search(r"pub fn complement\(base: u8\) -> u8 \{\s*\(!base\) & 0x([0-9a-fA-F]+)u8", t)
     return str(int(m.group(1), 16)) if m else None
+
+# ---------------------------------------------------------------- dna_string.rs
+def _const(name, ty_re=r"[a-z0-9]+"):
+    t = src("dna_string.rs")
+    m = re.search(r"^const %s: %s = (0x[0-9a-fA-F]+|\d+);" % (name, ty_re), t, re.M)
+    return None if not m else str(int(m.group(1), 0))
+
+@item("dnaBlockBits", "Nat", "64", "dna_string.rs BLOCK_BITS")
+def _(): return _const("BLOCK_BITS")
+
+@item("dnaWidth", "Nat", "2", "dna_string.rs WIDTH")
+def _(): return _const("WIDTH")
+
+@item("dnaMask", "Nat", "3", "dna_string.rs MASK")
+def _(): return _const("MASK")
+
+@item("dnaLowerOfTwo", "Nat", str(0x5555555555555555), "mask in count_diff_2_bit_packed")
+def _():
+    t = src("dna_string.rs")
+    m = re.search(r"fn count_diff_2_bit_packed\(a: u64, b: u64\) -> u32 \{\s*let bit_diffs = a \^ b;\s*let two_bit_diffs = \(bit_diffs \| bit_diffs >> 1\) & (0x[0-9a-fA-F]+);", t)
+    return str(int(m.group(1), 16)) if m else None
+
+@item("sliceDebugLimit", "Nat", "256", "length from which Debug for DnaStringSlice prints a summary")
+def _():
+    t = src("dna_string.rs")
+    m = re.search(r"impl<'a> fmt::Debug for DnaStringSlice<'a> \{.*?if self\.length < (\d+) \{", t, re.S)
+    return m.group(1) if m else None
 
 def generate():
     lines = ["/-! GENERATED by tools/extract_consts.py from /repo/src — do not edit. -/", "namespace Gen", ""]
